@@ -54,23 +54,34 @@ pub fn serialise(recs: &[Vec<u8>], container: &str, wrap: usize, dir: &str, stem
             parts.push(vec![]);
             (gz(&parts, Compression::default()), format!("{}.{}.gz", stem, ext))
         }
-        "fagza" => {
-            // two stored members; the first is padded (in a FASTA description, which no consumer looks at) so that it
-            // ends exactly one byte before a 32 KiB boundary of the compressed file: the second member's magic then
-            // straddles the boundary
+        "fagza" | "fagzb" | "fagzc" | "fagzd" => {
+            // two stored members; the first is padded (in a FASTA description, which no consumer looks at) so that the
+            // second member starts at a chosen offset relative to a 64 KiB boundary of the compressed file (hence also
+            // relative to every smaller power-of-two block): a = one byte before (the magic straddles the boundary),
+            // b = exactly on it, c / d = two / three bytes before (magic, or magic and method, in the earlier block)
+            let rem: usize = match container { "fagza" => 65535, "fagzb" => 0, "fagzc" => 65534, _ => 65533 };
             let half = texts.len() / 2;
-            let mut first: Vec<u8> = texts[..half].concat();
             let second: Vec<u8> = texts[half..].concat();
-            let mut pad = 0usize;
+            let build = |pad: usize| -> Vec<u8> {
+                let mut t = format!(">r0 {}\n", "p".repeat(pad)).into_bytes();
+                t.extend(&texts[0][texts[0].iter().position(|&b| b == b'\n').unwrap() + 1..]);
+                for x in &texts[1..half] { t.extend(x); }
+                t
+            };
+            let mut first: Vec<u8> = texts[..half].concat();
             if half > 0 {
-                for _ in 0..6 {
-                    let len = gz(&[first.clone()], Compression::none()).len();
-                    let want = (32767 + 32768 - (len % 32768)) % 32768;
-                    if want == 0 { break; }
+                let mut pad = 0usize;
+                'search: for _ in 0..8 {
+                    let len = gz(&[build(pad)], Compression::none()).len();
+                    let want = (rem + 65536 - (len % 65536)) % 65536;
+                    if want == 0 { first = build(pad); break; }
+                    // a longer text may need one more stored block (5 bytes of block header): try those too
+                    for j in 0..4usize {
+                        if want < 5 * j { continue; }
+                        let cand = pad + want - 5 * j;
+                        if gz(&[build(cand)], Compression::none()).len() % 65536 == rem { first = build(cand); break 'search; }
+                    }
                     pad += want;
-                    let mut t = format!(">r0 {}\n", "p".repeat(pad)).into_bytes();
-                    t.extend(&texts[0][texts[0].iter().position(|&b| b == b'\n').unwrap() + 1..]);
-                    first = t; for x in &texts[1..half] { first.extend(x); }
                 }
             }
             (gz(&[first, second], Compression::none()), format!("{}.{}.gz", stem, ext))
